@@ -48,6 +48,7 @@ type Opts struct {
 	NamePrefix       string
 	Wide             bool // one case in eight (instead of one in thirty) has a wide multifurcation (9..75 children)
 	NoOver64         bool // never draw the 65..130-tip class (checks whose cost is quadratic per tip and that do not touch bitsets)
+	OneLine          bool // comments without line breaks (the multi-tree reader ends a record at a ';' that ends a line, inside a comment too: C01 keeps such texts away from the commands)
 }
 
 func pick(t *rapid.T, class int, label string) int {
@@ -420,11 +421,11 @@ func Decorate(t *rapid.T, root *ref.Node, o Opts) {
 			if rapid.IntRange(0, 3).Draw(t, "hascom") == 0 {
 				k := rapid.IntRange(1, 3).Draw(t, "ncom")
 				for i := 0; i < k; i++ {
-					x.Com = append(x.Com, comment(t))
+					x.Com = append(x.Com, oneLine(comment(t), o.OneLine))
 				}
 			}
 			if p != nil && x.Len != nil && rapid.IntRange(0, 3).Draw(t, "hasbcom") == 0 {
-				x.BCom = []string{comment(t)}
+				x.BCom = []string{oneLine(comment(t), o.OneLine)}
 			}
 		}
 	})
@@ -697,4 +698,18 @@ func RootOnBranch(t *rapid.T, m *ref.Node) *ref.Node {
 	}
 	fix(r)
 	return r
+}
+
+// oneLine replaces line breaks of every kind in a comment when asked to.
+func oneLine(c string, on bool) string {
+	if !on {
+		return c
+	}
+	return strings.Map(func(r rune) rune {
+		switch r {
+		case '\n', '\r', '\v', '\f', 0x85, 0x2028, 0x2029:
+			return '_'
+		}
+		return r
+	}, c)
 }
